@@ -460,7 +460,7 @@ class TaskMsgStream(Stream):
     check_fn = "TaskMsg.check_case"
     show_fn = "TaskMsg.model_out"
     needs_scratch_home = True
-    n_hashseeds = 4
+    n_hashseeds = 8
     shard_size = 400
     rule = ("op sequences (job preparation, submit-command result, messages {submitted, started, succeeded, "
             "failed[/SIG], submission failed, expired, custom, other} x {received, polled, internal} x "
@@ -477,7 +477,7 @@ class TaskMsgStream(Stream):
         if tier == "quick":
             nr, ns, na = 700, 600, 100
         else:
-            nr, ns, na = 12000, 10000, 2000
+            nr, ns, na = 3000, 2500, 400
         cases += [gen_random(rng) for _ in range(nr)]
         cases += [gen_story(rng) for _ in range(ns)]
         cases += [gen_story(rng, "latepoll") for _ in range(na)]
